@@ -156,6 +156,9 @@ func genIndexSet(r *RNG, tier string) []int32 {
 	return out
 }
 
+// c16Reused: long-lived generic arrays, one per element type, re-initialised by every case.
+var c16Reused = map[string]*array.Array{}
+
 func runC16(ctx *Ctx, idx int) {
 	r := NewRNG(caseSeed(ctx.Seed, "C16", ctx.Tier, idx))
 	k := arrKinds[idx%len(arrKinds)]
@@ -377,6 +380,27 @@ func runC16(ctx *Ctx, idx int) {
 		viol("generic-build-failed", map[string]interface{}{"panic": fmt.Sprint(pv), "error": fmt.Sprint(err), "stack": stack})
 		return
 	}
+	// one long-lived array object per element type is initialised again by
+	// every case of this worker: index sets of very different sizes follow
+	// each other (big, small, medium ...), and each time the object must be
+	// exactly the array of the latest call
+	reused := c16Reused[k.name]
+	if reused == nil {
+		reused, _ = array.NewEmpty(k.zero)
+		c16Reused[k.name] = reused
+	}
+	if reused != nil {
+		var rerr error
+		pv, stack = try(func() { rerr = reused.Init(ixs, k.slice(vals)) })
+		if pv != nil || rerr != nil {
+			viol("reinit-of-used-array-failed", map[string]interface{}{"panic": fmt.Sprint(pv), "error": fmt.Sprint(rerr), "stack": stack})
+			delete(c16Reused, k.name)
+			reused = nil
+		} else {
+			ctx.Count("long_lived_array_reinitialised", 1)
+			ctx.Max("long_lived_array_max_n", int64(n))
+		}
+	}
 	// round trips
 	var data []byte
 	pv, stack = try(func() { data, err = proto.Marshal(msg) })
@@ -470,6 +494,12 @@ func runC16(ctx *Ctx, idx int) {
 		{"typed", wrap(get)}, {"raw", rawGet(base)}, {"generic(New)", genGet(gen1)}, {"generic(NewEmpty+Init)", genGet(gen2)},
 		{"typed-after-roundtrip", wrap(tget)}, {"raw-after-roundtrip", rawGet(tbase)}, {"generic-after-roundtrip", genGet(gload)},
 		{"typed-loaded-from-generic", wrap(tget2)},
+	}
+	if reused != nil {
+		// (only its answers are compared: re-initialising with an empty list
+		// leaves the old element bytes behind, unreachable - wasteful, but no
+		// answer changes, so the serialised form is not compared)
+		accs = append(accs, acc{"generic(long-lived object initialised again)", genGet(reused)})
 	}
 	for _, a := range accs {
 		cur := int32(-1)
